@@ -366,3 +366,7 @@ func vpBatchReuse(refillEarly bool) {
 	vpCover(k1 == 2, "two-message batch, then a refill of the same object")
 	n.shutdown()
 }
+
+// announce_retry: SEND_RPC / DROP_RPC accounting on the announcement path with two peers and on the RETRY path
+// (shared with C05 retry2).
+func vpH_C19_announce_retry() { vpH_C05_retry2() }
